@@ -122,6 +122,12 @@ def cases(tier, seed, i, n):
                             yield dict(kind='hist', hs=hs, seq=seq, seg='perstep', faults=[[op, k, fk]])
         for c in connect_phase_cases():
             yield c
+        # the loop's own tear-down (server hung up / closed / protocol error) races session.close() made on another
+        # thread (a with-block around the WebSocket left there): one terminal event, nothing escapes
+        for prog in sorted(THREAD_PROGRAMS):
+            yield dict(kind='threads', prog=prog, mode='dfs', max_runs=300 if tier == 'quick' else 3000)
+            for r in range(3 if tier == 'quick' else 60):
+                yield dict(kind='threads', prog=prog, rseed=seed * 7919 + r, count=10, prob=(0.1, 0.3, 0.6)[r % 3])
         # a timeout fires while an application thread is stalled in a send on this connection (peer alive, not reading)
         for timer in ('ping_timeout', 'close_timeout'):
             for astuck in ('send_binary', 'send_ping'):
@@ -161,9 +167,68 @@ def connect_phase_cases():
             yield dict(kind='conn', what='connectfault', fault=f, policy=pn)
 
 
+EXIT = ['__exit__', None, None, None]
+THREAD_PROGRAMS = {
+    'loop-server-eof||exit': dict(z=None, loop='server-eof', loop_n=4, threads=[[EXIT]]),
+    'loop-server-text-eof||exit': dict(z=None, loop='server-text-eof', loop_n=5, threads=[[EXIT]]),
+    'loop-server-close||exit': dict(z=None, loop='server-close', loop_n=4, threads=[[EXIT]]),
+    'loop-server-eof||exit||send': dict(z=None, loop='server-eof', loop_n=4, threads=[[EXIT], [['send_text', 'T2-0']]]),
+    'loop-server-close||close+exit': dict(z=None, loop='server-close', loop_n=4, threads=[[['close', 1000, 'bye'], EXIT]]),
+}
+
+
+def run_threads(case, acc):
+    from . import c11
+    from .. import sched
+    prog = THREAD_PROGRAMS[case['prog']]
+
+    def judge_(prog_, out):
+        s = out.sched
+        detail = dict(switches=s.schedule_signature()[:40], preemptions=s.preemptions, loop_events=list(out.loop_events),
+                      calls=[(r['tid'], r['j'], r['ok'], r['exc']) for r in out.records])
+        acc.count2('oracle', 'tear_down_races_judged')
+        if not out.setup_ok:
+            return 'INCONCLUSIVE', dict(msg='setup did not reach Poll'), None
+        if s.hung or s.overrun:
+            return 'INCONCLUSIVE', dict(msg='scheduler watchdog', hung=s.hung, overrun=s.overrun), None
+        if s.deadlock:
+            return 'would-hang:deadlock-between-the-loop-and-session-close-on-another-thread', detail, None
+        for t in s.threads:
+            if t.exc is not None:
+                detail['thread_exc'] = repr(t.exc)
+                if t.name == 'loop':
+                    return 'exception-escaped-iterator:tear-down-racing-session-close-on-another-thread', detail, None
+                return 'application-call-raised-non-websocket-error:session-close-racing-the-tear-down', detail, None
+        for r in out.records:
+            if r['exc_type'] is not None and not issubclass(r['exc_type'], c11.lerrors.WebSocketError):
+                return 'application-call-raised-non-websocket-error:session-close-racing-the-tear-down', detail, None
+        evs = [e for e in out.loop_events if e != 'poll']
+        if evs.count('disconnected') > 1:
+            return 'second-terminal-event', detail, None
+        if 'disconnected' in evs and evs[-1] not in ('disconnected', '<end>'):
+            return 'event-after-terminal-event', detail, None
+        if not [sk for sk in out.world.socks if not sk.closed] == []:
+            return None, detail, None
+        return None, detail, None
+
+    if 'replay' in case and case['replay'].get('plan') is not None:
+        out = c11.execute(prog, plan={int(k): v for k, v in case['replay']['plan'].items()}, files=sched.WRITE_PATH_FILES)
+        c11.account(prog, out, judge_, acc, dict(case, pid='C07'), 'dfs', {})
+        return
+    if case.get('mode') == 'dfs':
+        c11.explore_dfs(prog, 1, judge_, acc, dict(case, pid='C07'), case.get('max_runs', 300), 0, 1, files=sched.WRITE_PATH_FILES)
+        return
+    rnd = random.Random(case['rseed'])
+    for _ in range(case['count']):
+        out = c11.execute(prog, rnd=random.Random(rnd.randrange(1 << 30)), switch_prob=case['prob'], files=None)
+        c11.account(prog, out, judge_, acc, dict(case, pid='C07'), 'random', None)
+
+
 def run_case(case, acc):
     if case['kind'] == 'conn':
         return run_conn(case, acc)
+    if case['kind'] == 'threads':
+        return run_threads(case, acc)
     if case['kind'] == 'stalled-writer':
         return run_stalled_writer(case, acc)
     pols = [case['policy']] if 'policy' in case else PNAMES
